@@ -152,12 +152,45 @@ def run(ctx):
             violations.append(Violation("set of channels read differs from the set written: %r" % (objs,), dict(kind="e2e", objects=objs)))
         if len(violations) > 4:
             break
+    # one GroupObject / ChannelObject reused for several segments, renamed in between (group and channel are public attributes)
+    counts["reused_objects"] = 0
+    for _ in range(ctx.n(20, 400)):
+        pairs = []
+        while len(pairs) < rnd.randint(2, 5):
+            g, c = rnd.choice(names[:40] + [rand_name(rnd)]), rnd.choice(names[:40] + [rand_name(rnd)])
+            try:
+                (g + c).encode("utf-8")
+            except UnicodeEncodeError:
+                continue
+            if (g, c) not in pairs:
+                pairs.append((g, c))
+        buf = io.BytesIO()
+        try:
+            go, co = GroupObject("x", {}), ChannelObject("x", "y", np.array([0], dtype=np.int32), {})
+            with TdmsWriter(buf) as w:
+                for i, (g, c) in enumerate(pairs):
+                    go.group, co.group, co.channel = g, g, c
+                    go.properties, co.properties = {"gi": i}, {"n": g + "|" + c}
+                    co.data = np.array([i, i + 1], dtype=np.int32)
+                    w.write_segment([go, co])
+            buf.seek(0)
+            f = TdmsFile.read(buf)
+            got = sorted((ch.group_name, ch.name, ch.properties.get("n"), [int(v) for v in ch[:]]) for gr in f.groups() for ch in gr.channels())
+        except Exception as ex:  # noqa
+            violations.append(Violation("writing renamed objects %r raised %s: %s" % (pairs, type(ex).__name__, ex), dict(kind="reuse", objects=pairs)))
+            continue
+        counts["reused_objects"] += 1
+        exp = sorted((g, c, g + "|" + c, [i, i + 1]) for i, (g, c) in enumerate(pairs))
+        if got != exp:
+            violations.append(Violation("one writer object renamed between segments: written %r, read %r" % (exp[:3], got[:3]), dict(kind="reuse", objects=pairs)))
+        if len(violations) > 4:
+            break
     ev = sum(counts.values())
     return dict(violations=violations[:5], disagreements=disagreements[:20],
                 coverage=dict(evaluations=ev, distinct_nontrivial=len(seen_paths),
                               rule="all names up to length %d over {quote, slash, space, letter} as groups; pairs of names up to 3+3 (quick: 1500 sampled; thorough: all); "
                                    "scanner on every string up to length %d incl. malformed; random unicode names incl. astral code points, NUL, newlines; end-to-end "
-                                   "TdmsWriter -> TdmsFile with 1-4 channels; distinct_nontrivial = distinct paths produced" % (maxlen, scan_len),
+                                   "TdmsWriter -> TdmsFile with 1-4 channels, and with one writer object renamed between segments; distinct_nontrivial = distinct paths produced" % (maxlen, scan_len),
                               samples=[dict(group="it's", channel="a/b", path="/'it''s'/'a/b'")], exhaustive=(ctx.tier == "thorough"), counts=counts))
 
 
